@@ -745,6 +745,19 @@ func main() {
 				}
 				replayed++
 				ok, out := replayNative(repo, verif, dirFiles, h, path, v)
+				if !ok && len(v.Sched) > 0 && n < 3 {
+					// the native thread structure can differ from the symbolic one (symbolic-only stubs,
+					// canonical-schedule harnesses): the counterexample also counts as reproduced when
+					// the same assertion fails with the goroutines running freely
+					saved := v.Sched
+					v.Sched = nil
+					writeReplay(path, prop, h, v, *flagTier)
+					ok, out = replayNative(repo, verif, dirFiles, h, path, v)
+					if !ok {
+						v.Sched = saved
+						writeReplay(path, prop, h, v, *flagTier)
+					}
+				}
 				if ok {
 					replayOK++
 					confirmed = true
